@@ -38,6 +38,10 @@ def worker_env(numba_threads=None, boundscheck=False, extra=None):
         env['NUMBA_NUM_THREADS'] = str(numba_threads)
     for k in ('OMP_NUM_THREADS', 'OPENBLAS_NUM_THREADS', 'MKL_NUM_THREADS'):
         env[k] = '1'
+    # numba's default OpenMP layer spin-waits: with several shards x up to 16 threads on 16 cores every parallel region costs
+    # hundreds of ms. The workqueue layer (numba's own, always available) parks idle threads; prange semantics are the same.
+    env.setdefault('NUMBA_THREADING_LAYER', 'workqueue')
+    env.setdefault('OMP_WAIT_POLICY', 'passive')
     if boundscheck:
         env['NUMBA_BOUNDSCHECK'] = '1'
     else:
